@@ -63,6 +63,10 @@ var expectedProbes = map[string][]string{
 		"fault_with_script_goroutines", "ctx_mode_0", "ctx_mode_1", "ctx_mode_2", "spawn", "select"},
 }
 
+// subSweeps: a check may consist of several case families, each registered under its own worker id.
+// C09I = C02's programs with the injected cancellation, judged for C09's "deferred calls run on every exit".
+var subSweeps = map[string][]string{"C09": {"C09", "C09I"}}
+
 var raceProps = map[string]bool{"C13": true, "C14": true, "C16": true, "C02": true}
 
 type aggT struct {
@@ -246,7 +250,31 @@ func main() {
 	// 2. sweep
 	base := seed << 20
 	deadline := time.Now().Add(time.Duration(cfg.WallS) * time.Second)
-	sw := sweep(prop, *tier, bin, base, cfg, workers, deadline)
+	subs := subSweeps[prop]
+	if len(subs) == 0 {
+		subs = []string{prop}
+	}
+	var sw *sweepResult
+	for si, sp := range subs {
+		scfg := cfg
+		if si > 0 {
+			// the secondary family gets a quarter of the case budget and of the wall clock
+			scfg.Count = cfg.Count / 4
+			deadline = time.Now().Add(time.Duration(cfg.WallS/4+5) * time.Second)
+		}
+		one := sweep(sp, *tier, bin, base, scfg, workers, deadline)
+		for _, v := range one.violations {
+			v.wprop = sp
+		}
+		for _, v := range one.knownCands {
+			v.wprop = sp
+		}
+		if sw == nil {
+			sw = one
+		} else {
+			sw.merge(one)
+		}
+	}
 
 	// 3. auxiliary race leg
 	raceInfo := map[string]any{}
@@ -293,15 +321,15 @@ func main() {
 		v := groups[k]
 		mc, mr := v.c, v.res
 		if !v.hang {
-			mc, mr = minimise(prop, bin, v, cfg)
+			mc, mr = minimise(wp(v, prop), bin, v, cfg)
 		}
 		mc.Expect = mr
-		path := filepath.Join(replayDir(), fmt.Sprintf("%s-%d.json", prop, v.seed))
+		path := filepath.Join(replayDir(), fmt.Sprintf("%s-%d.json", wp(v, prop), v.seed))
 		b, _ := json.MarshalIndent(mc, "", " ")
 		os.MkdirAll(filepath.Dir(path), 0o755)
 		os.WriteFile(path, b, 0o644)
 		// fresh-process confirmation
-		rr, hung, err := replayOnce(prop, bin, path, cfg.HangS)
+		rr, hung, err := replayOnce(wp(v, prop), bin, path, cfg.HangS)
 		if err != nil {
 			die2("replay of %s failed to run: %v", path, err)
 		}
@@ -311,7 +339,7 @@ func main() {
 			// the failure depends on what the same worker process ran before it (state that lives in the
 			// process: a cache, a registry): re-run that worker's exact seed sequence up to this seed.
 			hist := historySpec{Base: base, Offset: (v.seed - base) % int64(workers), Stride: int64(workers), Upto: v.seed, Tier: *tier}
-			if hr := replayHistory(prop, bin, hist, cfg); hr != nil && hr.Violation == v.res.Violation {
+			if hr := replayHistory(wp(v, prop), bin, hist, cfg); hr != nil && hr.Violation == v.res.Violation {
 				hb, _ := json.MarshalIndent(map[string]any{"property": prop, "history": hist, "case": v.c, "expected_result": hr,
 					"note": "the violation depends on the cases the same worker process ran before this one (process-wide state); replay re-runs that exact seed sequence"}, "", " ")
 				os.WriteFile(path, hb, 0o644)
@@ -366,6 +394,13 @@ func main() {
 }
 
 func indent(s string) string { return strings.ReplaceAll(s, "\n", "\n  ") }
+
+func wp(v *violation, prop string) string {
+	if v.wprop != "" {
+		return v.wprop
+	}
+	return prop
+}
 
 func loadKnown() *knownFile {
 	var k knownFile
@@ -427,10 +462,11 @@ func replayHistory(prop, bin string, h historySpec, cfg tierCfg) *harness.Result
 }
 
 type violation struct {
-	seed int64
-	c    *harness.Case
-	res  *harness.Result
-	hang bool
+	wprop string // worker id of the case family (usually the property id)
+	seed  int64
+	c     *harness.Case
+	res   *harness.Result
+	hang  bool
 }
 
 type sweepResult struct {
@@ -457,6 +493,44 @@ type sweepResult struct {
 	nTraces          int
 	unconfirmedHangs int
 	inconclEx        []string
+}
+
+func (a *sweepResult) merge(b *sweepResult) {
+	a.evals += b.evals
+	a.steps += b.steps
+	a.switches += b.switches
+	a.contended += b.contended
+	a.fakeNs += b.fakeNs
+	a.tasks += b.tasks
+	a.inconcl += b.inconcl
+	a.leaked += b.leaked
+	a.nShapes += b.nShapes
+	a.nTraces += b.nTraces
+	a.nviolRaw += b.nviolRaw
+	a.nknownCand += b.nknownCand
+	a.unconfirmedHangs += b.unconfirmedHangs
+	a.wall += b.wall
+	for k, v := range b.outcomes {
+		a.outcomes[k] += v
+	}
+	for k, v := range b.counters {
+		if strings.HasSuffix(k, "_max") {
+			if v > a.counters[k] {
+				a.counters[k] = v
+			}
+			continue
+		}
+		a.counters[k] += v
+	}
+	a.violations = append(a.violations, b.violations...)
+	a.knownCands = append(a.knownCands, b.knownCands...)
+	a.inconclEx = append(a.inconclEx, b.inconclEx...)
+	if len(a.samples) < 4 && len(b.samples) > 0 {
+		a.samples = append(a.samples, b.samples[0])
+	}
+	if a.trouble == "" {
+		a.trouble = b.trouble
+	}
 }
 
 func appendHashes(dst []uint64, path string) []uint64 {
@@ -887,7 +961,18 @@ func doReplay(prop, bin, path string, known *knownFile, dumpLog bool) int {
 		cleanup()
 		return 0
 	}
-	r, hung, err := replayOnce(prop, bin, path, 30)
+	wprop := prop
+	var cprobe struct {
+		Property string `json:"property"`
+	}
+	if json.Unmarshal(b, &cprobe) == nil && cprobe.Property != "" {
+		for _, sp := range subSweeps[prop] {
+			if sp == cprobe.Property {
+				wprop = sp
+			}
+		}
+	}
+	r, hung, err := replayOnce(wprop, bin, path, 30)
 	if err != nil {
 		die2("%v", err)
 	}
